@@ -106,15 +106,15 @@ pub proof fn lemma_fold_min(d: real, m: real, q: int, tol: real)
 pub proof fn lemma_inside(a1: f64, a2: f64, tol: f64, two_pi: f64)
     requires fin(a1), fin(a2), fin(two_pi), rv(two_pi) == tp()
     ensures ({
-        let d = abs_spec(a1.sub_spec(a2));
-        let m = d.rem_spec(two_pi);
+        let d = abs_spec(fsub(a1, a2));
+        let m = frem(d, two_pi);
         fin(m) && 0real <= rv(m) < tp() &&
         ((fold_pi(rv(m)) <= rv(tol)) <==> near_mod(rv(a1), rv(a2), rv(tol)))
     })
 {
     broadcast use group_m2;
-    let d = abs_spec(a1.sub_spec(a2));
-    let m = d.rem_spec(two_pi);
+    let d = abs_spec(fsub(a1, a2));
+    let m = frem(d, two_pi);
     assert(rv(d) == rabs(rv(a1) - rv(a2)));
     lemma_mulsign(0);
     assert(rv(d) == rv(m) + (fmod_q(d, two_pi) as real) * rv(two_pi));
